@@ -12,7 +12,7 @@ with `KIND ∈ plain|signed|real`, `CONST = (int N) | (bits "01…") | (str "…
 
 Response (TAB separated `key=value`):
 * `parse=error  line=<n>  msg=<text>`
-* `parse=ok  roundtrip=<ok|FAIL>  wf=ok  modules=<n> wires=<n> cells=<n> procs=<n>`
+* `parse=ok  roundtrip=<ok|FAIL>  wf=ok  modules=<n> wires=<n> cells=<n> procs=<n> instances=<ok|type:count>`
 * `parse=ok  roundtrip=…  wf=fail  module=<name>  clause=<clause>  item=<what inside the module>`
 `roundtrip`: `parse (print d) = d` for the parsed document (the printer of `Model/Rtlil/Print`).
 -/
@@ -150,7 +150,15 @@ def handleWf (text : String) (exp : List Foreign) : String :=
       let wires := (d.map (·.wires.length)).foldl (· + ·) 0
       let cells := (d.map (·.cells.length)).foldl (· + ·) 0
       let procs := (d.map (·.procs.length)).foldl (· + ·) 0
-      tab ["parse=ok", s!"roundtrip={rt}", "wf=ok", s!"modules={d.length}", s!"wires={wires}", s!"cells={cells}", s!"procs={procs}"]
+      -- every expected foreign instance occurs exactly once as a cell (outside `WellFormed`, which only judges the
+      -- cells that are present: a dropped instance would otherwise pass)
+      let occ := fun (f : Foreign) => (d.map (fun m => (m.cells.filter (·.type == f.type)).length)).foldl (· + ·) 0
+      let bad := exp.filter (fun f => occ f != 1)
+      let inst := match bad with
+        | [] => "ok"
+        | f :: _ => s!"{clean f.type}:{occ f}"
+      tab ["parse=ok", s!"roundtrip={rt}", "wf=ok", s!"modules={d.length}", s!"wires={wires}", s!"cells={cells}", s!"procs={procs}",
+           s!"instances={inst}"]
     | .error (mn, cl) =>
       let item := match d.find? (·.name == mn) with
         | some m => diag d exp m cl
